@@ -59,7 +59,7 @@ def run(R):
         decs = {a.pos for a in ops if is_dec(a)}
         for pos, ev, var, via in body_invocations(fn, var_kinds=("local", "param")):
             # a task owned by this function by value (popped into a local, or handed over by value)
-            if (var.get("type") or "") != "dispenso::OnceFunction":
+            if (var.get("ctype") or "") != "dispenso::OnceFunction":
                 continue
             n_run += 1
             key = "run:%s()" % var.get("name")
